@@ -415,7 +415,7 @@ theorem deregister_spec (s : Subject) (h : Inv s) (ep : Nat) (path : String) (to
 theorem changed_spec (s : Subject) (h : Inv s) (path : String) (mid : Nat) (con : Bool) :
     (resourceChanged s path mid con).get path =
       (s.get path).map (fun r =>
-        { sequence := r.sequence + 1,
+        { sequence := seqNext r.sequence,
           observers := (r.observers.map (bump mid con)).filter (fun o => o.unacked ≤ s.limit) }) ∧
     (resourceChanged s path mid con).limit = s.limit := by
   have _ := h
@@ -579,40 +579,59 @@ theorem unacked_le (ops : List Op) (hl : LimitsOk ops) :
   · decide
   · intro kv hkv; cases hkv
 
-/-- sequence numbers never decrease along a history, whatever the operation -/
-theorem sequence_mono (s : Subject) (op : Op) (p : String) (r : Resource) (h : Inv s)
+theorem seqNext_spec (n : Nat) :
+    seqNext n < 2 ^ 32 ∧ (n + 1 < 2 ^ 32 → seqNext n = n + 1) ∧ (n = 2 ^ 32 - 1 → seqNext n = 0) := by
+  unfold seqNext
+  refine ⟨Nat.mod_lt _ (by decide), fun h => Nat.mod_eq_of_lt h, fun h => ?_⟩
+  subst h; decide
+
+/-- every operation leaves a resource's sequence number alone, except a notification round on
+that resource, which advances it by one (modulo 2^32) -/
+theorem sequence_step (s : Subject) (op : Op) (p : String) (r : Resource) (h : Inv s)
     (hr : s.get p = some r) :
-    ∃ r', (step s op).get p = some r' ∧ r.sequence ≤ r'.sequence := by
+    ∃ r', (step s op).get p = some r' ∧
+      (r'.sequence = r.sequence ∨ ((∃ m c, op = .chg p m c) ∧ r'.sequence = seqNext r.sequence)) := by
   cases op with
   | reg ep q t =>
     show ∃ r', (register s ep q t).get p = some r' ∧ _
     by_cases hq : p = q
     · subst hq
       rw [(register_spec s h ep p t).1, hr]
-      exact ⟨_, rfl, Nat.le_refl _⟩
+      exact ⟨_, rfl, Or.inl rfl⟩
     · rw [(frame s q p hq ep 0 t false).1, hr]
-      exact ⟨_, rfl, Nat.le_refl _⟩
+      exact ⟨_, rfl, Or.inl rfl⟩
   | dereg ep q t =>
     show ∃ r', (deregister s ep q t).get p = some r' ∧ _
     by_cases hq : p = q
     · subst hq
       rw [(deregister_spec s h ep p t).1, hr]
-      exact ⟨_, rfl, Nat.le_refl _⟩
+      exact ⟨_, rfl, Or.inl rfl⟩
     · rw [(frame s q p hq ep 0 t false).2.1, hr]
-      exact ⟨_, rfl, Nat.le_refl _⟩
+      exact ⟨_, rfl, Or.inl rfl⟩
   | chg q m c =>
     show ∃ r', (resourceChanged s q m c).get p = some r' ∧ _
     by_cases hq : p = q
     · subst hq
       rw [(changed_spec s h p m c).1, hr]
-      exact ⟨_, rfl, Nat.le_succ _⟩
+      exact ⟨_, rfl, Or.inr ⟨⟨m, c, rfl⟩, rfl⟩⟩
     · rw [(frame s q p hq 0 m [] c).2.2, hr]
-      exact ⟨_, rfl, Nat.le_refl _⟩
+      exact ⟨_, rfl, Or.inl rfl⟩
   | ack ep m =>
     show ∃ r', (acknowledge s ep m).get p = some r' ∧ _
     rw [(acknowledge_spec s h ep m p).1, hr]
-    exact ⟨_, rfl, Nat.le_refl _⟩
-  | limit l => exact ⟨r, hr, Nat.le_refl _⟩
+    exact ⟨_, rfl, Or.inl rfl⟩
+  | limit l => exact ⟨r, hr, Or.inl rfl⟩
+
+/-- sequence numbers never decrease along a history as long as the 32-bit counter has not
+wrapped (fewer than 2^32 rounds on the resource) -/
+theorem sequence_mono (s : Subject) (op : Op) (p : String) (r : Resource) (h : Inv s)
+    (hr : s.get p = some r) (hw : r.sequence + 1 < 2 ^ 32) :
+    ∃ r', (step s op).get p = some r' ∧ r.sequence ≤ r'.sequence := by
+  obtain ⟨r', h1, h2⟩ := sequence_step s op p r h hr
+  refine ⟨r', h1, ?_⟩
+  rcases h2 with e | ⟨_, e⟩
+  · omega
+  · rw [e, (seqNext_spec r.sequence).2.1 hw]; omega
 
 /-! ### `create_notification` -/
 
